@@ -45,6 +45,8 @@ Fixpoint cg (p : pexp) : list tinstr :=
   | PRaiseRule l r mode => [TRecRule r mode; TI (IRaise l true)]
   | PRaiseExpr l rec =>
       TI (IRecoverPush 2) :: TI (IRaise l true) :: TI (IJump (len (cg rec) + 1)) :: cg rec ++ [TI IRet]
+  | PNegSet body =>
+      TI (IChoice (len (cg body) + 2) false) :: cg body ++ [TI (ICommit 0); TI (IFail 1); TI (IMatchAny 0)]
   end.
 
 Definition is_object (t : tinstr) : bool :=
